@@ -8,7 +8,7 @@ git diff --quiet || { echo "/repo dirty"; exit 9; }
 git apply "$d" || { echo "APPLY FAILED $d"; exit 9; }
 export GOFLAGS=-mod=mod GOPROXY=off
 gofmt -l $(git diff --name-only) | grep . && { echo "gofmt issues"; }
-if timeout 600 /verif/scripts/baseline_off.sh; then
+if BASELINE_QUIET=1 timeout 900 /verif/scripts/baseline_off.sh; then
   git add -A && git commit -qm "$msg" && git log --oneline | head -1
 else
   echo "BASELINE FAILED - reverting $d"; git checkout -- . ; git clean -fdq; exit 1
